@@ -17,6 +17,33 @@ theorem double_bits_preserved (b : Nat) (hb : b < 2 ^ 64) (h : isNaNBits 11 52 b
   reprint_id 11 52 b hb h
 theorem fp128_bits_preserved (b : Nat) (hb : b < 2 ^ 128) (h : isNaNBits 15 112 b = false) : reprint 15 112 b = b :=
   reprint_id 15 112 b hb h
+/-- the spelling of fp128 (low word first) is an involution on 128-bit numbers, so the literal of a non-NaN value is reprinted digit for digit -/
+theorem swapWords_involutive (x : Nat) (hx : x < 2 ^ 128) : swapWords (swapWords x) = x := by
+  unfold swapWords
+  have hhi : x / 2 ^ 64 < 2 ^ 64 := by omega
+  have hlo : x % 2 ^ 64 < 2 ^ 64 := Nat.mod_lt _ (by decide)
+  have hx' : x = x / 2 ^ 64 * 2 ^ 64 + x % 2 ^ 64 := by omega
+  generalize x / 2 ^ 64 = hi at *
+  generalize x % 2 ^ 64 = lo at *
+  have h1 : hi % 2 ^ 64 = hi := Nat.mod_eq_of_lt hhi
+  rw [h1]
+  have h2 : (lo * 2 ^ 64 + hi) % 2 ^ 64 = hi := by omega
+  have h3 : (lo * 2 ^ 64 + hi) / 2 ^ 64 % 2 ^ 64 = lo := by omega
+  rw [h2, h3]
+  omega
+
+theorem swapWords_lt (x : Nat) : swapWords x < 2 ^ 128 := by
+  unfold swapWords
+  have h1 : x % 2 ^ 64 < 2 ^ 64 := Nat.mod_lt _ (by decide)
+  have h2 : x / 2 ^ 64 % 2 ^ 64 < 2 ^ 64 := Nat.mod_lt _ (by decide)
+  generalize x % 2 ^ 64 = lo at *
+  generalize x / 2 ^ 64 % 2 ^ 64 = hi at *
+  omega
+
+theorem fp128_literal_preserved (lit : Nat) (hl : lit < 2 ^ 128) (h : isNaNBits 15 112 (swapWords lit) = false) : reprint128Lit lit = lit := by
+  unfold reprint128Lit
+  rw [fp128_bits_preserved (swapWords lit) (swapWords_lt lit) h, swapWords_involutive lit hl]
+
 /-- the general statement, for any IEEE interchange format -/
 theorem ieee_bits_preserved (E M b : Nat) (hb : b < 2 ^ (1 + E + M)) (h : isNaNBits E M b = false) : reprint E M b = b :=
   reprint_id E M b hb h
